@@ -33,7 +33,10 @@ CPP_WORDS = {'auto', 'int', 'bool', 'float', 'double', 'char', 'void', 'class', 
 TRANP_WORDS = {'on', 'raw', 'ref', 'addr', 'const', 'move', 'down', 'as_a', 'new', 'empty', 'hex', 'copy', 'Embed', 'CP', 'CSP', 'CUP', 'CRef', 'CW', 'T', 'make'}
 POOL = ['a', 'aa', 'a_a', 'a__a', 'aa_', 'ab', 'abc', 'abcd', 'b', 'ba', 'x', 'xx', 'x__y', 'x_y', 'xy', 'block', 'function_def_raw', 'class_def_raw', 'var', 'funccall', 'getattr', 'symbol', 'receiver', 'arguments',
 	'statements', 'elements', 'Alpha', 'alpha', 'ALPHA', 'n', 'nn', 'n1', 'n10', 'n2', 'k9', 'k10', 'zz', 'zzz', 'z', 'p__q', 'file_input', 'assign', 'A', 'Aa', 'AA', 'B', 'Ab',
-	'very_long_identifier_name_with_forty_chars_', 'i', 'j', 'ii', 'tmp', 'tmp_', 'tmp__1', 'o', 'O0', 'l', 'l1']
+	'very_long_identifier_name_with_forty_chars_', 'i', 'j', 'ii', 'tmp', 'tmp_', 'tmp__1', 'o', 'O0', 'l', 'l1',
+	# fresh names that merely *contain* a name the transpiler treats specially (library classes, decorators, receivers, C++ words)
+	'Enumerable', 'MyEnum2', 'T_EnumItem', 'selfish', 'clsx', 'Embedded', 'listing', 'dictx', 'strx', 'intx', 'Exceptional', 'superb', 'property_2', 'valuex',
+	'namex', 'Genericx', 'TypeVarx', 'RuntimeErrorx', 'lenx', 'rangex', 'classmethodx', 'Callablex', 'thisx', 'autox', 'constx', 'stdx', 'vector_', 'mainx', 'initx']
 
 
 def user_names(source: str) -> list[str]:
